@@ -179,15 +179,6 @@ theorem parseTop_unmodelled_only_string_radius (o : POpts) (v : JVal)
 
 /-! ### the writer never indexes out of range -/
 
-/-- the kinds whose "coordinates" value exists (`writeCoords`): children of Multi* collections -/
-def isGeomLeaf : Obj → Bool
-  | .point _ _ => true
-  | .spoint _ => true
-  | .lineString _ _ _ => true
-  | .polygon _ _ _ => true
-  | .rectO _ _ _ => true
-  | _ => false
-
 mutual
 /-- every object carries a complete table of extra ordinates: `dims` values for each of its
     positions (`writePos` reads `values[idx*dims+i]` for `i < dims`), and the children of a
